@@ -96,6 +96,7 @@ func spec_size(a *AppendableFile) int64 {
 // sync: same; a successful sync empties the buffer in both modes; a failed fsync in retryable mode keeps the bytes
 // buffered and rewinds fileOffset so that they are written again.
 //@ func (*AppendableFile).sync
+//@   order flushed_before_fsync: aof.flush before aof.f.Sync
 //@   requires aof.f != nil && 0 <= aof.wbufFlushedOffset && aof.wbufFlushedOffset <= aof.wbufUnwrittenOffset && aof.wbufUnwrittenOffset <= len(aof.writeBuffer) && (aof.readOnly || len(aof.writeBuffer) > 0) && aof.fileOffset >= int64(aof.wbufFlushedOffset) && aof.fileOffset <= spec_maxLog && aof.fileOffset + int64(aof.wbufUnwrittenOffset - aof.wbufFlushedOffset) <= spec_maxLog && (aof.retryableSync || aof.wbufFlushedOffset == 0 || aof.wbufFlushedOffset < len(aof.writeBuffer))
 //@   ensures wfbuf: aof.f != nil && 0 <= aof.wbufFlushedOffset && aof.wbufFlushedOffset <= aof.wbufUnwrittenOffset && aof.wbufUnwrittenOffset <= len(aof.writeBuffer) && (aof.readOnly || len(aof.writeBuffer) > 0)
 //@   ensures wfoff: aof.fileOffset >= int64(aof.wbufFlushedOffset) && aof.fileOffset <= spec_maxLog
